@@ -147,15 +147,18 @@ class _StripAnn(ast.NodeTransformer):
 
 
 def runtime_names(tree):
-    """Names the module needs when it is imported / run, i.e. used outside annotations."""
+    """Names the module needs when it is imported / run, i.e. used outside annotations.  Variable annotations (the fields of
+    generated TypedDict classes) are evaluated when the class body runs - unless the module starts with
+    `from __future__ import annotations`, which turns them into strings."""
     t = _StripAnn().visit(copy.deepcopy(tree))
+    lazy = any(isinstance(n, ast.ImportFrom) and n.module == "__future__" and any(a.name == "annotations" for a in n.names) for n in t.body)
     names = set()
+    for node in ast.walk(t):
+        if lazy and isinstance(node, ast.AnnAssign):
+            node.annotation = ast.Constant(value=None)
     for node in ast.walk(t):
         if isinstance(node, ast.Name):
             names.add(node.id)
-        elif isinstance(node, ast.AnnAssign):
-            pass
-    # class-body annotations of generated TypedDict classes are evaluated at import time
     return names
 
 
@@ -369,7 +372,8 @@ def run_case(case):
         mod = importlib.import_module(name)
         k = case["k"]
         vals = {"circle": zshapes.Circle(), "square": zshapes.Square(), "int": 1, "str": "s", "none": None,
-                "list": [zshapes.Circle()], "dict": {"a": 1, "b": "x"}, "deep": __import__("zsh.deep").deep.Deep(), "tm": __import__("typing_zm").TM()}
+                "list": [zshapes.Circle()], "dict": {"a": 1, "b": "x"}, "dictcls": {"n": 1, "shape": zshapes.Circle()},
+                "dictdeep": {"d": __import__("zsh.deep").deep.Deep(), "items": [zshapes.Square()]}, "deep": __import__("zsh.deep").deep.Deep(), "tm": __import__("typing_zm").TM()}
         T = lambda v: get_type(vals[v], k)  # noqa: E731
         traces = []
         funcs = {"f1": (getattr(mod.f1, "__wrapped__", mod.f1), ["a", "b"]), "f2": (mod.f2, ["x", "y", "z"]),
@@ -522,7 +526,9 @@ def run_cases(cases, procs=16):
 
 
 TYPE_SELS = [["int"], ["circle", "int"], ["circle", "square"], ["list", "none"], ["dict"], ["str", "circle", "none"], ["deep"],
-             ["tm", "int"]]
+             ["tm", "int"],
+             # records whose values are instances of classes of other modules (with k > 0: fields of generated TypedDict classes)
+             ["dictcls"], ["dictcls", "int"], ["dictdeep", "dict"]]
 
 
 def gen_cases(pid, tier, seed):
@@ -588,7 +594,7 @@ def only_special_params_mismatch(rec):
     return bool(mism) and all((p["f"], p["pos"]) in special for p in mism)
 
 
-def unbound_special_param_names(rec):
+def unbound_special_param_names(rec, fields=False):
     """Names used in annotations of positional-only / keyword-only parameters of the result that nothing binds at MODULE
     level (an import inside a function body does not count) - the other footprint of the recorded libcst finding."""
     import builtins
@@ -620,6 +626,18 @@ def unbound_special_param_names(rec):
                     top(h.body)
             elif isinstance(n, ast.Assign):
                 bound.update(t.id for t in n.targets if isinstance(t, ast.Name))
+    if fields:      # names in the field annotations of module-level TypedDict classes: evaluated when the class body runs, so they
+        # must be bound by a statement that comes BEFORE the class
+        lazy = any(isinstance(n, ast.ImportFrom) and n.module == "__future__" and any(a.name == "annotations" for a in n.names) for n in tree.body)
+        missing = set()
+        if not lazy:
+            for n in tree.body:
+                if isinstance(n, ast.ClassDef) and any("TypedDict" in ast.unparse(b) for b in n.bases):
+                    for st in n.body:
+                        if isinstance(st, ast.AnnAssign):
+                            missing |= {x.id for x in ast.walk(st.annotation) if isinstance(x, ast.Name)} - bound
+                top([n])
+        return sorted(missing)
     top(tree.body)
     special = set()
     for n in ast.walk(tree):
@@ -635,6 +653,10 @@ def signature(clause, rec, case):
     if clause in ("AnnotationsPresent", "Idempotent", "Importable", "SameBehaviour"):
         if only_special_params_mismatch(rec) or unbound_special_param_names(rec):
             sig["only_posonly_or_kwonly_annotations_not_imported_or_requalified"] = True
+        elif unbound_special_param_names(rec, fields=True):
+            # the generated TypedDict classes are copied into the module verbatim; a field type the module only knows under
+            # another spelling (`import zshapes` -> `zshapes.Circle`) is written bare and nothing imports it
+            sig["generated_typeddict_field_names_not_imported"] = True
     gone = [i for i in rec["src_imports"] if not any(
         (j["kind"], j["module"], j["name"], j["alias"], j["block"]) == (i["kind"], i["module"], i["name"], i["alias"], i["block"])
         for j in rec["res_imports"])]
@@ -667,6 +689,11 @@ def signature(clause, rec, case):
             # the same libcst limitation (names in positional-only / keyword-only annotations are not re-qualified) when the
             # bare name is bound to another class in the source: libcst gives up on the whole module
             sig = {"clause": clause, "posonly_or_kwonly_annotation_name_clash": True}
+        elif ("Could not resolve a unique qualified name" in rec["err"] and case["k"] > 0
+              and any(x in ("dictcls", "dictdeep") for sel in case["types"].values() for x in sel)):
+            # the same for the field types of generated TypedDict classes (copied verbatim, bare names) when the bare name is
+            # bound to another class in the source
+            sig = {"clause": clause, "generated_typeddict_field_name_clash": True}
     return sig
 
 
